@@ -11,15 +11,16 @@ ALL_OPNAMES = {"operator" + o for o in ARITH + CMPS + LOGIC + ["++", "--", "~", 
 NO_INLINE = {BASE + o for o in ARITH + CMPS + LOGIC + ["++", "--", "~", "!"]}
 
 
-def strip_casts(t):
-    while isinstance(t, tuple) and t and (t[0] == "cast" or (isinstance(t[0], str) and t[0].startswith("cast:"))):
+def strip_casts(t, explicit=True):
+    """drop conversion wrappers; explicit=False keeps casts that were written explicitly in the source ('xcast')"""
+    while isinstance(t, tuple) and t and (t[0] == "cast" or (explicit and t[0] == "xcast") or (isinstance(t[0], str) and t[0].startswith("cast:"))):
         t = t[2]
     return t
 
 
 def is_value_of(term, obj, allow_cast=True):
     """term is exactly the (possibly ABI-converted) value held by wrapper/plain object obj"""
-    t = strip_casts(term) if allow_cast else term
+    t = strip_casts(term, explicit=False) if allow_cast else term
     if not isinstance(t, tuple) or not t:
         return False
     if t[0] == "rd":
